@@ -214,10 +214,22 @@ def kernel_features(prog, flows, k):
             break
     f["carry_row_step"] = "+1" if row is not None else None
     op = None
+    # the cursor may be worked on under another name inside a helper that was spliced in (`carry(v, w, n) -> (v, w)`):
+    # every local connected to it by plain copies / moves is the cursor
+    family = {cursor} if cursor is not None else set()
+    changed = True
+    while changed and cursor is not None:
+        changed = False
+        for s in k.stmts():
+            if s.k == "assign" and not s.lhs.proj and s.rv.k == "use" and s.rv.ops[0].place is not None and not s.rv.ops[0].place.proj and k.local_ty(s.lhs.local) == "i32":
+                a_, b_ = s.lhs.local, s.rv.ops[0].place.local
+                if (a_ in family) != (b_ in family) and row not in (a_, b_) and root_local(k, s.rv.ops[0]) != row:
+                    family |= {a_, b_}
+                    changed = True
     if carry and cursor is not None:
         ops = set()
         for s in k.stmts():
-            if s.bb in carry and s.k == "assign" and s.rv.k == "binop" and s.rv.j["op"].replace("WithOverflow", "").replace("Unchecked", "") in ("Add", "Sub", "Mul", "Div", "Rem") and root_local(k, s.rv.ops[0]) == cursor and not s.rv.ops[1].is_const():
+            if s.bb in carry and s.k == "assign" and s.rv.k == "binop" and s.rv.j["op"].replace("WithOverflow", "").replace("Unchecked", "") in ("Add", "Sub", "Mul", "Div", "Rem") and (root_local(k, s.rv.ops[0]) in family) and not s.rv.ops[1].is_const():
                 ops.add(s.rv.j["op"].replace("WithOverflow", ""))
         op = "/".join(sorted(ops)) if ops else None
     f["carry_cursor_op"] = op
